@@ -99,7 +99,12 @@ def compare(m, spec, rng, counters, bad, evals=EVALS, n_points=2, fd=True):
             exp = ref.num(ev)(x, t, th)
             try:
                 with contextlib.redirect_stdout(io.StringIO()):
-                    got = np.asarray(getattr(m, ev)(xa, t), dtype=float)
+                    twin = TWINS.get(ev)
+                    if twin and hasattr(m, twin) and rng.random() < 0.4:     # the t-first twin handed to scipy's integrators
+                        got = np.asarray(getattr(m, twin)(t, xa), dtype=float)
+                        counters["t_first_twin_calls"] = counters.get("t_first_twin_calls", 0) + 1
+                    else:
+                        got = np.asarray(getattr(m, ev)(xa, t), dtype=float)
             except Exception as e:
                 bad("%s(x,t) raised" % ev, error=short_exc(e), tb=tb_tail(e), x=x, t=t, theta=th)
                 continue
@@ -182,6 +187,9 @@ def compare(m, spec, rng, counters, bad, evals=EVALS, n_points=2, fd=True):
             except Exception as e:
                 bad("finite-difference probe of ode/jacobian/grad raised", error=short_exc(e), tb=tb_tail(e))
     return ref
+
+
+TWINS = {"ode": "ode_T", "jacobian": "jacobian_T", "diff_jacobian": "diff_jacobian_T", "grad": "grad_T", "grad_jacobian": "grad_jacobianT"}
 
 
 def nontrivial(ref):
